@@ -284,3 +284,16 @@ Definition ex_queue_ops : list op :=
 Definition ex_queue_ops_mp11 : list op :=
   [OEnqueue (Evt 4 1); OStart [] []; OEnqueue (Evt 4 2); OEnqueue (Evt 5 3); OProcess (Evt 6 4) [10] []; OEnqueue (Evt 6 5);
    ODrain [4] []; OStop []; OEnqueue (Evt 4 6); OStart [1] []; OEnqueue (Evt 4 7); ODrain [1] []].
+
+(* any two backmp11 configurations (compile policy, dispatch strategy), the same switch policy *)
+Theorem mp11_same_queue_behaviour : forall cf1 cf2 md l,
+  c_be cf1 = Mp11 -> c_be cf2 = Mp11 -> c_pol cf1 = c_pol cf2 -> flat_events md -> core (md_root md) ->
+  m_hist (md_root md) = HNone -> mp11_entry_throw_resets = true -> qbracketed false l ->
+  2 * count_enq l + depth (md_root md) + 3 <= default_fuel ->
+  Forall2 same_step_strict (run cf1 md l) (run cf2 md l).
+Proof.
+  intros cf1 cf2 md l H1 H2 Hpol Hflat Hcore Hh Hr Hb Hf.
+  eapply Forall2_same_strict.
+  - apply mp11_queue_is_spec; eauto.
+  - rewrite Hpol. apply mp11_queue_is_spec; eauto.
+Qed.
